@@ -91,21 +91,24 @@ func Glue(m *progen.Module, r progen.Rendering, style string) (string, map[strin
 		imports[path] = alias
 		return alias
 	}
-	opts := map[string]string{}
-	for k, v := range r.Data {
-		opts[k] = fmt.Sprint(v)
+	optLitFor := func(p *progen.Pkg, iface string) string {
+		opts := map[string]string{}
+		for k, v := range r.EffectiveData(p, iface) {
+			opts[k] = fmt.Sprint(v)
+		}
+		var optKeys []string
+		for k := range opts {
+			optKeys = append(optKeys, k)
+		}
+		sort.Strings(optKeys)
+		var optLit strings.Builder
+		optLit.WriteString("map[string]string{")
+		for _, k := range optKeys {
+			fmt.Fprintf(&optLit, "%q: %q, ", k, opts[k])
+		}
+		optLit.WriteString("}")
+		return optLit.String()
 	}
-	var optKeys []string
-	for k := range opts {
-		optKeys = append(optKeys, k)
-	}
-	sort.Strings(optKeys)
-	var optLit strings.Builder
-	optLit.WriteString("map[string]string{")
-	for _, k := range optKeys {
-		fmt.Fprintf(&optLit, "%q: %q, ", k, opts[k])
-	}
-	optLit.WriteString("}")
 
 	var tg, im strings.Builder
 	usedHelpers := map[string]bool{}
@@ -150,7 +153,7 @@ func Glue(m *progen.Module, r progen.Rendering, style string) (string, map[strin
 					newExpr = fmt.Sprintf("%s.New%s%s(t)", mocksAlias, mockName(it.Name), inst)
 				}
 				fmt.Fprintf(&tg, "\t\t{Name: %q, Style: %q, Opts: %s,\n\t\t\tNew: func(t *RecT) any { return %s },\n\t\t\tIface: reflect.TypeOf((*%s.%s%s)(nil)).Elem()},\n",
-					p.Name+"."+it.Name+inst, style, optLit.String(), newExpr, srcAlias, it.Name, inst)
+					p.Name+"."+it.Name+inst, style, optLitFor(p, it.Name), newExpr, srcAlias, it.Name, inst)
 			}
 		}
 	}
